@@ -70,7 +70,23 @@ def run_case(case):
                 return node.multicast(msg, typ)
             return node.multicast(msg, typ, lvl_arg)
 
-        out["box"] = net.call(snd, do, timeout_ms=20000)
+        racing = case.get("racing_writes") or []
+        if racing:
+            # a member's application starts a write to an absent node around the moment the multicast lands in its radio
+            lead0 = min(0, min(r[2] for r in racing))
+            boxes = []
+            t_mc = net.sim.now - lead0 * 1000
+            pending = sorted([(t_mc, "mc", None)] + [(t_mc + r[2] * 1000, "w", r) for r in racing], key=lambda x: x[0])
+            for t, what, r in pending:
+                if t > net.sim.now:
+                    net.sim.advance(t - net.sim.now)
+                if what == "mc":
+                    out["box"] = net.post(snd, do)
+                else:
+                    boxes.append(net.post(r[0], lambda node, r=r: node.write(L.Frame(L.Header(r[1], 1), b"race"))))
+            net.wait(lambda: out["box"]["done"] and all(b["done"] for b in boxes), 30000)
+        else:
+            out["box"] = net.call(snd, do, timeout_ms=20000)
         net.settle(3000, quiet_ms=40)
         out["queues"] = {a: [f for f in q if not (f[3] == 126 and f[5] == b"dummy")] for a, q in net.drain_queues().items()}
         out["overflow"] = {a: c.chip.fifo_overflows for a, c in net.ctl.items()}
@@ -141,10 +157,25 @@ def run_case(case):
     overrun = {a for a, k in out["overflow"].items() if k}
     if overrun:
         res.label("receiver-fifo-overrun")
+    racing_nodes = {r[0] for r in case.get("racing_writes") or []}
+    if racing_nodes:
+        res.label("write-racing-the-multicast")
+
+    def took_all(a):
+        mc = [e for e in net.med.log if not e["ack"] and e["src"] == str(snd) and len(e["pl"]) >= 8 and (e["pl"][2] | (e["pl"][3] << 8)) == 0o100]
+        pls = {e["pl"] for e in mc}
+        return bool(pls) and all(any(str(a) in e["rx"] for e in mc if e["pl"] == pl) for pl in pls)
+
     if not any_relay:
         for a in members:
             k = len(holds(a))
             if (a in overrun or a in case.get("full_queue", [])) and k == 0:
+                continue
+            if racing_nodes and k == 0 and not took_all(a):
+                # the racing node's radio was in TX mode when the multicast passed (not a listening node), or its
+                # transmissions overlapped the unacknowledged multicast at this receiver: whoever's radio did take every
+                # frame must hold the message, the others are not judged
+                res.label("multicast-not-taken-during-the-race")
                 continue
             if k != 1:
                 res.fail("C14/%s/level%d-from-%s" % ("not-received" if k == 0 else "received-twice", target, sender_tag),
@@ -281,9 +312,23 @@ def _enum_history():
             yield {"nodes": rnodes, "sender": snd, "level": level, "type": 1, "msg": "72656c6179", "pre_writes": [], "full_queue": fullq}
 
 
+def _enum_racing(step):
+    """a level-1 member with a slow application loop starts a write to an absent child while the multicast lands: its start
+    is swept from 2 ms before to 4 ms after the multicast call"""
+    def gen():
+        pop = [0, 0o1, 0o2, 0o3, 0o12]
+        for poll in (500, 3000):
+            for lead in range(-2000, 4001, step):
+                nodes = [{"addr": a, "kind": "net", "mc": True, "mcu": {"spi": 20, "jit": 0, "seed": 3, "poll": poll} if a == 0o2 else None} for a in pop]
+                for msg in ("6d63", "55" * 30):
+                    yield {"nodes": nodes, "sender": 0, "level": 1, "type": 1, "msg": msg, "racing_writes": [[0o2, 0o42, lead]]}
+    return gen
+
+
 def parts(tier):
     if tier == "quick":
-        return [Part("enum-sender-class-x-level", "enum", _enum, exhaustive=True), Part("enum-history-and-relays", "enum", _enum_history, exhaustive=True),
+        return [Part("enum-sender-class-x-level", "enum", _enum, exhaustive=True), Part("write-racing-the-multicast-sweep", "enum", _enum_racing(250), exhaustive=True), Part("enum-history-and-relays", "enum", _enum_history, exhaustive=True),
                 Part("generated", "gen", _strategy, n=300)]
-    return [Part("enum-sender-class-x-level", "enum", _enum, exhaustive=True), Part("enum-history-and-relays", "enum", _enum_history, exhaustive=True),
+    return [Part("enum-sender-class-x-level", "enum", _enum, exhaustive=True), Part("write-racing-the-multicast-sweep", "enum", _enum_racing(50), exhaustive=True),
+            Part("enum-history-and-relays", "enum", _enum_history, exhaustive=True),
             Part("generated", "gen", _strategy, n=15000)]
